@@ -1,4 +1,5 @@
 import TFV.Properties.DE
+import TFV.Properties.Runs
 #print axioms TFV.DE.C07_clamp
 #print axioms TFV.DE.C07_clampMean
 #print axioms TFV.DE.C07_repair_only_outside
@@ -11,3 +12,5 @@ import TFV.Properties.DE
 #print axioms TFV.DE.C07_trialSHADE_in_box
 #print axioms TFV.DE.C07_greedy_in_box
 #print axioms TFV.DE.C07_box_invariant
+#print axioms TFV.Runs.C07_run_in_box
+#print axioms TFV.Runs.C07_run_in_box_shade
